@@ -90,7 +90,7 @@ struct Expand {
 fn level1(ctx: &Ctx, report: &mut Report) -> (usize, usize, usize, usize, Vec<serde_json::Value>) {
     let thorough = ctx.thorough();
     let keys = pool(thorough);
-    let depth = if thorough { 12 } else { 8 };
+    let depth = if thorough { 10 } else { 8 };
     let ops: Vec<InternOp> = keys
         .iter()
         .flat_map(|(h, t)| [InternOp { k: "intern".into(), hash: *h, text: t.to_string() }, InternOp { k: "probe".into(), hash: *h, text: t.to_string() }])
@@ -307,7 +307,7 @@ pub fn run(ctx: &Ctx) -> Report {
     report.cov("distinct_nontrivial", json!(states + n2));
     report.cov("exhaustive", json!(true));
     report.cov("rule", json!("level 1: breadth-first search over every sequence of intern/probe operations on keys with designed hashes (collisions in the low 2/3/4 bits, an identical-full-hash pair, the empty string, fillers) up to the depth bound; a state is the real table's slot array; every transition is executed on the real table (fresh table, history replayed) and compared with a reference map; invariants checked in every state. level 2: every (sampled in quick: half of the) ordered pair of producers of each target string with k fresh strings created before and between, k over the filler set: equality, map selection, tuple-key selection, inequality of one-byte-different strings; a global defined under a host-created name."));
-    report.cov("bounds", json!({"level1_depth": if ctx.thorough() { 12 } else { 8 }, "level1_keys": pool(ctx.thorough()).len(), "level2_programs": n2}));
+    report.cov("bounds", json!({"level1_depth": if ctx.thorough() { 10 } else { 8 }, "level1_keys": pool(ctx.thorough()).len(), "level2_programs": n2}));
     report.cov("level1_max_capacity_reached", json!(max_cap));
     report.cov("level1_longest_probe_displacement", json!(max_chain));
     report.cov("level2_distinct_table_capacities", json!(ncaps));
